@@ -6,6 +6,7 @@ from __future__ import annotations
 
 import datetime as _dt
 import logging
+import threading as _real_threading
 import warnings
 from fractions import Fraction
 
@@ -20,6 +21,8 @@ def err_kind(e: BaseException) -> str:
 
     if isinstance(e, SchedulerError):
         return "SchedulerError"
+    if type(e).__name__ == "ExecHang":
+        return "ExecHang"
     if isinstance(e, TypeError):
         return "TypeError"
     if isinstance(e, AttributeError):
@@ -63,6 +66,20 @@ def py_tags(tags, kind):
     raise ValueError(kind)
 
 
+HANG_S = 2.0
+
+
+class ExecHang(RuntimeError):
+    pass
+
+
+class BadRepr:
+    """an argument that cannot be rendered (a closed connection, say): repr() and str() raise"""
+    def __repr__(self):
+        raise RuntimeError("cannot render this object")
+    __str__ = __repr__
+
+
 class _CountHandler(logging.Handler):
     def __init__(self):
         super().__init__(level=logging.DEBUG)
@@ -88,6 +105,7 @@ class ThrRunner:
         self.key_of = {}  # id(job) -> key
         self.cells = []
         self.cur = None  # current exec context
+        self.hung = False
         self.handler = _CountHandler()
         if scn.get("user_logger", True):
             self.logger = logging.getLogger(f"verif.{id(self)}")
@@ -283,6 +301,10 @@ class ThrRunner:
             cell["orig_kwargs"] = kwargs
             # payload id seen = own id iff exactly the original arguments arrived, else a sentinel
             cell["payload_id"] = lambda seen, wa=want_args, wk=want_kwargs, pid=payload: pid if (seen[0] == wa and seen[1] == wk) else 10**9
+        if o.get("badrepr"):
+            # the job carries an argument whose repr()/str() raise: rendering the job is impossible, running it is not
+            kwargs = dict(kwargs or {}, conn=BadRepr())
+            cell["payload_id"] = lambda seen, pid=payload: pid if (seen[1].get("p") == pid and isinstance(seen[1].get("conn"), BadRepr)) else 10**9
         cb = self.make_cb(cell)
         kw = {}
         if args is not None:
@@ -346,6 +368,27 @@ class ThrRunner:
         self.cells.append(cell)
         return key
 
+    def call_exec(self, force):
+        """exec_jobs in a helper thread: a call that never returns (a worker died, a join that cannot be
+        satisfied) is an observation, not a hang of the check"""
+        box = {}
+
+        def target():
+            try:
+                box["n"] = self.sched.exec_jobs(force_exec_all=force)
+            except BaseException as e:  # noqa: BLE001
+                box["e"] = e
+
+        th = _real_threading.Thread(target=target, daemon=True)
+        th.start()
+        th.join(HANG_S)
+        if th.is_alive():
+            self.hung = True
+            raise ExecHang(f"exec_jobs did not return within {HANG_S} s of real time (no callback of the scenario blocks)")
+        if "e" in box:
+            raise box["e"]
+        return box["n"]
+
     def snapshot(self):
         regset = self.sched.jobs
         out = {}
@@ -400,7 +443,9 @@ class ThrRunner:
                     "raises": set(o.get("raises") or []),
                 }
                 try:
-                    n = self.sched.exec_jobs(force_exec_all=bool(o.get("force")))
+                    if self.hung:
+                        raise RuntimeError("exec_jobs did not return earlier in this scenario")
+                    n = self.call_exec(bool(o.get("force")))
                     obs["res"] = ("c", n)
                 finally:
                     cur, self.cur = self.cur, None
